@@ -269,6 +269,9 @@ def outreg_cases(rng, n):
         def code(fm):
             lo, hi = S.fmt_bounds(fm[0], fm[1]); return rng.choice([lo, hi, hi - 1, lo + 1, rng.randint(lo, hi), rng.randint(lo, hi)])
         op = rng.choice(['+', '-', '*', '*', 'sum', 'max', 'dot', 'prod', 'cumsum'])
+        if rng.random() < 0.08:
+            # a negative difference of two UNSIGNED operands into a signed register wider than 64 bits (a uint64 difference would wrap mod 2^64)
+            op = '-'; fxm[0] = False; fym[0] = False; narrow = False; nwo = rng.choice([65, 72, 100, 128]); nfo = rng.choice([0, 1, max(fxm[2], fym[2])])
         if op in '+-' and not narrow and rng.random() < 0.5:
             # the register's fraction length puts the aligned operands at the int64 edge: each aligned code still fits, their sum or difference does not
             nfo_ = 63 - max(fxm[1] - fxm[2], fym[1] - fym[2]) + rng.choice([-1, 0, 0, 1])
@@ -368,6 +371,34 @@ def run_outreg(cases, res):
         if kind_ != 'ok' or mf != zf or mc != zc:
             res.fail(c, 'model Reduce disagrees with the implementation although the exact oracle agrees (%s, optimal word)' % c['op'], expected=str(kind_), got=(zf, zc[:4])); res.failures[-1]['no_input'] = True
 
+def run_unhandled(cases, res):
+    """NumPy functions the library does not implement itself (np.square, np.left_shift) on integer-valued operands of 64 bits and more,
+    stored through out= into a wrap register wider than 64 bits: the register holds the residue of the exact result"""
+    fx = lib.impl(); import numpy as np
+    for c in cases:
+        try:
+            x = fx.Fxp(list(c['uv']), c['s'], c['nwx'], 0)
+            z = fx.Fxp(np.zeros(len(c['uv'])), c['sz'], c['nwz'], 0, overflow='wrap')
+            r = np.square(x, out=z) if c['fn'] == 'square' else np.left_shift(x, c['k'], out=z)
+            got = (lib.codes_of(z), r is z)
+        except Exception as e:
+            res.fail(c, 'C03: an unhandled NumPy function into a wide wrap register raised %s' % lib.exc_name(e), got=str(e)[:200]); continue
+        m_ = 1 << c['nwz']
+        def reg(v):
+            w = v % m_; return w - m_ if (c['sz'] and w >= m_ // 2) else w
+        want = [reg(v * v if c['fn'] == 'square' else v << c['k']) for v in c['uv']]
+        res.count('N:unhandled-numpy-into-wide-register', key=repr(c), nontrivial=True, n=len(want))
+        if got != (want, True):
+            res.fail(c, 'C03: np.%s of integer-valued wide operands stored through out= into a wrap register is not the residue of the exact result' % c['fn'], expected=want, got=got)
+
+def unhandled_cases(rng, n):
+    cases = []
+    for _ in range(n):
+        s = rng.random() < 0.5; sz = s or rng.random() < 0.5
+        uv = [rng.choice([rng.getrandbits(rng.choice([33, 38, 40, 50, 62])), 3, (1 << 37) + (1 << 33) + 1]) * (rng.choice([1, -1]) if s else 1) for _k in range(rng.choice([1, 2, 3]))]
+        cases.append({'s': s, 'nwx': rng.choice([64, 72, 80]), 'sz': sz, 'nwz': rng.choice([65, 72, 100, 130]), 'uv': uv, 'fn': rng.choice(['square', 'left_shift']), 'k': rng.choice([30, 40, 64])})
+    return cases
+
 def shard(shard, nshards, rng, tier, extra):
     res = Result()
     nwmax = 3 if tier == 'quick' else 6
@@ -388,6 +419,7 @@ def shard(shard, nshards, rng, tier, extra):
         cases.append({'s': s, 'nw': nw, 'nf': nf, 'r': rng.choice(RMODES), 'o': 'wrap', 'carrier': rng.choice(S.carriers_for(vals, rng)), 'route': rng.choice(S.ROUTES), 'vals': vals, 'setmode': 'slice'})
         if rng.random() < 0.15: cases[-1]['ack'] = True
     check_store_cases(cases, res, 'B:random-core-wrap', 'C03')
+    run_unhandled(unhandled_cases(rng, (300 if tier == 'quick' else 6000) // nshards), res)
     run_period(period_cases(rng, (4500 if tier == 'quick' else 40000) // nshards), res)
     run_wide(wide_cases(rng, (7500 if tier == 'quick' else 60000) // nshards), res)
     run_wide2d(wide2d_cases(rng, (900 if tier == 'quick' else 8000) // nshards), res)
@@ -416,7 +448,8 @@ def classify(fl):
 
 def replay(payload):
     c = payload['case']; res = Result()
-    if 'vals' in c: check_store_cases([c], res, 'replay', 'C03')
+    if 'uv' in c: run_unhandled([c], res)
+    elif 'vals' in c: check_store_cases([c], res, 'replay', 'C03')
     elif 'steps' in c: c['steps'] = [tuple(t) for t in c['steps']]; run_register([c], res)
     elif 'src' in c: run_widesrc([c], res)
     elif 'shape2d' in c: run_wide2d([c], res)
